@@ -6,6 +6,10 @@ LEVEL_NOTE = ("Trusted base: CPython 3.12 (/venv/bin/python), eval/tokenize/frac
               "oracles under /verif/vf, and that sfc_models imports from the /repo working tree (asserted at "
               "start, recorded in evidence).")
 CLAIMS = {
+ 'C03': ("differential execution reduction on/off on the same text: key sets and every value for k>=0 (1e-12 acyclic, 1e-8 cyclic)",
+         "Held on K observed pairs: systems with alias chains, aliases of every variable class, derived trees and initial conditions give the same series with and without reduction. Pairs where either run fails to converge are inconclusive.", "3/C03"),
+ 'C10': ("by-construction expectations on lengths, exogenous values, initial conditions, lags, time axis; rejection cases; model-level SIM builds",
+         "Held on K observed solves: horizon+1 points, verbatim exogenous for list/tuple/expression/scalar, stated k=0 values, lag identity, time axis; invalid exogenous/initial values rejected.", "3/C10"),
  'C06': ("shadow-ledger reference model replayed against recorded AddCashFlow histories, exact valuations; in-situ AddCashFlow wrapper",
          "Held on K observed histories: after every registration F, INC and each flow definition of the real Sector equal a 30-line shadow ledger under exact valuations; exclusions of other sectors must not leak.", "3/C06"),
  'C14': ("by-construction reference classifier vs EquationParser lists, hostile-comment differential, description differential at model level",
